@@ -423,8 +423,11 @@ def execute(world, op, dry=False):
         fn = lambda: getattr(k, name)(x)
     elif name == "insert":
         _, cont, pos, obj = op
+        pos = dec(pos)
         k, x = g(cont), g(obj)
         tags = arg_tags(k, x)
+        if not isinstance(pos, int) or isinstance(pos, bool):
+            tags.append("index-not-an-integer")
         fn = lambda: k.insert(pos, x)
     elif name == "extend":
         _, cont, objs = op
@@ -464,6 +467,16 @@ def execute(world, op, dry=False):
             tags.append("key-is-name")
             idx_key = idx
             idx = names_.index(idx) if idx in names_ else n + 5
+        elif isinstance(idx, dict) and "$obj" in idx:
+            # the element is addressed by an object (the list looks it up by identity / equality)
+            idx_key = g(idx["$obj"])
+            tags.append("key-is-object")
+            pool = raw_children(k)[0 if lst == "sections" else 1] if kind(k) in ("doc", "sec") else []
+            idx = next((i for i, c in enumerate(pool) if c is idx_key), n + 5)
+        elif not isinstance(idx, int):
+            idx_key = dec(idx)
+            tags.append("index-not-an-integer")
+            idx = n + 5
         else:
             idx_key = idx
         tags.append("index-in-range" if -n <= idx < n else "index-out-of-range")
